@@ -245,7 +245,13 @@ fn cases(rng: &mut Rng, id: usize) -> Vec<Case> {
             body.push(card("IfTrue", vec![card("Less", vec![int(0), read("n")]),
                                           foreach("i", "k", "v", read("items"), block(vec![setg("d", call("walk", vec![card("Sub", vec![read("n"), int(1)])]))]))]));
             body.push(card("Return", vec![read("n")]));
-            v.push(dflt("foreach-at-stack-limit", prog(vec![setg("items", card("Array", vec![int(1)])), setg("r", call("walk", vec![int(80)]))], vec![func("walk", &["n"], body)]), true));
+            // every alignment of the frames against the end of the stack: locals of main shift all of them
+            for mpad in 0..(pad + 9) {
+                let mut main: Vec<C> = (0..mpad).map(|i| setv(&format!("m{i}"), int(i as i64))).collect();
+                main.push(setg("items", card("Array", vec![int(1)])));
+                main.push(setg("r", call("walk", vec![int(80)])));
+                v.push(dflt("foreach-at-stack-limit", prog(main, vec![func("walk", &["n"], body.clone())]), true));
+            }
         }
         10 => {
             let n = 1 + rng.below(64);
